@@ -44,6 +44,12 @@ def run(ctx):
     cts = [r for r in rows if r[0] == "ct"]
 
     have_model = bool(getattr(ctx, "driver_ok", False))
+    if not ok_extract:
+        # the translator no longer recognises the source (already recorded as a broken tie, exit 1): without the
+        # regenerated tables there is no model to run; report what the implementation did and stop
+        ctx.cov.update({"evaluations": len(rows), "distinct_nontrivial": 0, "rule": "extractor failed; no model run",
+                        "input_distribution": dict(Counter(r[2].split(" ")[0] for r in cases)), "samples": [c[:3] for c in cases[:3]]})
+        return
     if not have_model:
         raise RuntimeError("lean driver does not build against the regenerated Gen/HttpStatus.lean:\n" + getattr(ctx, "driver_log", "")[-3000:])
     lines = ["c " + r[1] for r in cases] + ["st " + r[1] for r in sts] + ["ct %s %s" % (r[1], r[2]) for r in cts]
